@@ -276,6 +276,11 @@ def check_race(pid, tier, seed):
             q = progs.free_variant(p, spin=rng.choice([0, 1, 3]))
             q['sched']['kind'] = 'race'
             ps.append(q)
+        for p in load_corpus(pid):
+            q = json.loads(json.dumps(p))
+            q['sched'] = {'kind': 'race', 'seed': p['sched'].get('seed', 1)}
+            q.setdefault('spin', 1)
+            ps += [dict(q, id='%sr%d' % (q['id'], k)) for k in range(3)]
         nchunk = 8
         chunks = [ps[i:i + nchunk] for i in range(0, len(ps), nchunk)]
         suspects, reports, ran = [], [], 0
@@ -362,6 +367,22 @@ def recovery_prog(ep):
             'sched': {'kind': 'random', 'seed': p['sched'].get('seed', 1)}}
 
 
+def load_corpus(pid):
+    import glob
+    out = []
+    for f in sorted(glob.glob(os.path.join(vlib.VERIF, 'corpus', '*.json'))):
+        try:
+            d = json.load(open(f))
+        except Exception:
+            continue
+        if pid in d.get('properties', []):
+            p = json.loads(json.dumps(d['program']))
+            p['id'] = 'K' + os.path.basename(f)[:-5].replace('__', '-')
+            p['family'] = p.get('family', 'corpus')
+            out.append(p)
+    return out
+
+
 def check_property(pid, tier, seed):
     t0 = time.time()
     def mark(what):
@@ -389,6 +410,10 @@ def check_property(pid, tier, seed):
         fams, nq, nt = plan['gated']
         n = nq if tier == 'quick' else nt
         gated = progs.generate(fams, n, rng.randrange(1 << 30), prefix=pid + 'g')
+        # corpus: programs with recorded schedules that exposed a seeded change once (tools/mkcorpus.py)
+        corpus = load_corpus(pid)
+        gated += [p for p in corpus if p['sched']['kind'] != 'free']
+        cov['corpus'] = len(corpus)
         if plan.get('life_exhaustive'):
             gated += progs.life_exhaustive(plan['life_exhaustive'][0 if tier == 'quick' else 1], rng.randrange(1 << 30), pid + 'x')
         # ---- model checking (all interleavings of the small configurations) and TLC-generated schedules (M1)
@@ -403,6 +428,7 @@ def check_property(pid, tier, seed):
         ffams, fq, ft = plan['free']
         nf = fq if tier == 'quick' else ft
         free = [progs.free_variant(p) for p in progs.generate(ffams, nf, rng.randrange(1 << 30), prefix=pid + 'm')]
+        free += [p for p in corpus if p['sched']['kind'] == 'free']
         # ---- executions on the real code
         if plan.get('crash'):
             # every prefix of an execution is a crash point: cut executions after k gated steps ...
